@@ -55,8 +55,7 @@ package objectsets
 //@   requires [C04] !tdPending()
 //@   ensures [C06] condSt(condsPtr(objectSet), "Available") == 0
 //@   requires [C06] !archivedNow()
-//@   at SetStatusCondition#2 ghost archivedNow() := true
-//@   at SetStatusCondition#2 assert [C06] arg1.Type == "Archived" && arg1.Status == "True"
+//@   at SetStatusCondition ghost archivedNow() := archivedNow() || (arg1.Type == "Archived" && arg1.Status == "True")
 //@   ensures [C06] archivedNow() ==> len(ctrlOfSlice(objectSet)) == 0
 //@   ensures [C06] archivedNow() ==> condSt(condsPtr(objectSet), "Archived") == 1
 //@   at FreeCacheAndRemoveFinalizer#1 assert [C04] !old(finalizers(clientObj(objectSet))["package-operator.run/cached"]) || !tdPending()
